@@ -185,13 +185,16 @@ def c_literal_exhaustive(rep, nmfu):
         rep.failed_ob(Finding("C15", oid, "escape|" + repr(bad[0]), f"string constant {bad[0]!r} is emitted as {bad[1]} which a C compiler reads as bytes {bad[2]}", replay={"value": repr(bad[0])}, replayed=True))
     # bytes values (binary string defaults)
     for null in (True, False):
-        for val in ("", "a", "\x00", "\xff\x00z", "ab\"\\", "\x01a", "\x7f\x80"):
-            out = nmfu.OutputStorage(nmfu.OutputStorageType.STR, "v", str_size=16, str_null=null)
-            oid = f"C15/exhaustive/CodegenCtx._generate_set_string/{val!r}.{'term' if null else 'unterm'}"
+        long_values = ["a" + "\x01" * 150, "x" * 600, "".join(chr((7 * i) % 256) for i in range(700)), "ab" + "\\\"" * 130 + "\x00" + "7" * 20, "\x1f" * 124 + "q" + "\n1" * 60]
+        for val in ["", "a", "\x00", "\xff\x00z", "ab\"\\", "\x01a", "\x7f\x80"] + long_values:
+            out = nmfu.OutputStorage(nmfu.OutputStorageType.STR, "v", str_size=16 if len(val) < 16 else 1024, str_null=null)
+            oid = f"C15/exhaustive/CodegenCtx._generate_set_string/{(val if len(val) < 20 else val[:12] + '...' + str(len(val)))!r}.{'term' if null else 'unterm'}"
             try:
                 text = cc._generate_set_string(val, out)
-                m = re.fullmatch(r'memcpy\(state->c\.v, ("(?:[^"\\]|\\.)*"), (\d+)\);', text)
-                ok = m is not None and c_string_bytes(m.group(1)) == [ord(x) for x in val] and int(m.group(2)) == len(val) + (1 if null else 0)
+                # the source operand may be one literal or several adjacent ones (C concatenates them after each piece has been lexed on its own)
+                m = re.fullmatch(r'memcpy\(state->c\.v, ((?:"(?:[^"\\]|\\.)*"\s*)+), (\d+)\);', text)
+                pieces = re.findall(r'"(?:[^"\\]|\\.)*"', m.group(1)) if m else []
+                ok = m is not None and sum((c_string_bytes(pc) for pc in pieces), []) == [ord(x) for x in val] and int(m.group(2)) == len(val) + (1 if null else 0)
             except Exception as e:
                 ok = False
                 text = type(e).__name__
